@@ -118,3 +118,35 @@ def timedeltas_us(draw, max_days=40):
 def era(us):
     """Class label: decade of the instant (to show that the whole table span is reached)."""
     return f"{int(1973 + us / (US_DAY * 365.25)) // 10 * 10}s"
+
+
+# ------------------------------------------------------------------ clones (pickle / copy / deepcopy)
+
+CLONE_MODES = ["pickle", "copy", "deepcopy", "pickle0", "pickle2", "twice"]
+
+
+def clone_modes(none_share=3):
+    """Which way a drawn Date (or an object holding Dates) travels before it is used."""
+    return st.sampled_from(["none"] * none_share + ["pickle", "copy", "deepcopy", "pickle", "deepcopy", "pickle0", "pickle2", "twice"])
+
+
+def clone(obj, how):
+    """The object after pickle.loads(pickle.dumps(.)) / copy.copy / copy.deepcopy ('none': itself)."""
+    import copy
+    import pickle
+
+    if how in (None, "none"):
+        return obj
+    if how == "pickle":
+        return pickle.loads(pickle.dumps(obj))
+    if how == "pickle0":
+        return pickle.loads(pickle.dumps(obj, protocol=0))
+    if how == "pickle2":
+        return pickle.loads(pickle.dumps(obj, protocol=2))
+    if how == "copy":
+        return copy.copy(obj)
+    if how == "deepcopy":
+        return copy.deepcopy(obj)
+    if how == "twice":
+        return copy.deepcopy(pickle.loads(pickle.dumps(copy.copy(obj))))
+    raise ValueError(how)
